@@ -122,47 +122,77 @@ Proof.
   - apply cart_inv_step. - apply cart_count_none. - apply cart_count_some. - apply cart_count_nonneg.
 Qed.
 
-(* ---- the implementation's len (usize arithmetic) computes the count when m^k fits ---- *)
+(* ---- the implementation's len (checked usize arithmetic) is the count squeezed through usize:
+   Some count when it fits, None ("infinite") when it does not; never a panic ---- *)
 Lemma chk_usize_ok z : 0 <= z < 2 ^ 64 -> chk_usize z = Ok z.
 Proof.
   intros. unfold chk_usize, in_usizeb, usize_max.
   destruct (Z.leb_spec 0 z); [|lia]. destruct (Z.leb_spec z (2 ^ 64 - 1)); [reflexivity|lia].
 Qed.
-
-Lemma cart_len_aux_ok : forall v, valid v -> M ^ Z.of_nat (length v) < 2 ^ 64 ->
-  cart_len_aux M v = Ok (M ^ Z.of_nat (length v), M ^ Z.of_nat (length v) - 1 - dval v).
+Lemma to_usize_z_spec z : 0 <= z -> to_usize_z z = if z <? 2 ^ 64 then Some z else None.
 Proof.
-  induction v as [|d r IH]; intros Hv Hb; [reflexivity|].
+  intros. destruct (Z.ltb_spec z (2 ^ 64)); [apply to_usize_small | apply to_usize_big]; lia.
+Qed.
+
+Lemma cart_len_aux_exact : M < 2 ^ 64 -> forall v, valid v ->
+  cart_len_aux M v =
+  Ok (if M ^ Z.of_nat (length v) - dval v <? 2 ^ 64
+      then Some (to_usize_z (M ^ Z.of_nat (length v)), M ^ Z.of_nat (length v) - dval v)
+      else None).
+Proof.
+  intros HM. induction v as [|d r IH]; intros Hv; [reflexivity|].
   inversion Hv; subst. assert (Hm : 0 < M) by lia.
-  pose proof (pow_len_pos r Hm) as Hp. rewrite pow_succ_len in *.
+  pose proof (pow_len_pos r Hm) as Hp. rewrite pow_succ_len.
   pose proof (dval_bounds r H2) as Hd.
-  set (P := M ^ Z.of_nat (length r)) in *.
-  assert (HP1 : P <= M * P) by nia. assert (HM1 : M <= M * P) by nia.
-  cbn [cart_len_aux]. fold P. rewrite IH by (auto; lia). cbn [bind fst snd].
-  unfold sub_usize, mul_usize, add_usize.
-  rewrite (chk_usize_ok (M - 1)) by lia. cbn [bind].
-  rewrite (chk_usize_ok (M - 1 - Z.of_nat d)) by lia. cbn [bind].
-  assert (Hs : 0 <= (M - 1 - Z.of_nat d) * P <= (M - 1) * P).
-  { split; [apply Z.mul_nonneg_nonneg; lia | apply Z.mul_le_mono_nonneg_r; lia]. }
-  rewrite chk_usize_ok by lia. cbn [bind].
-  rewrite chk_usize_ok by lia. cbn [bind].
-  rewrite chk_usize_ok by lia. cbn [bind dval]. fold P. do 2 f_equal; lia.
+  set (P := M ^ Z.of_nat (length r)) in *. set (R := dval r) in *.
+  cbn [cart_len_aux dval]. fold P. fold R. rewrite IH by assumption. cbn [bind].
+  set (e := M - 1 - Z.of_nat d).
+  assert (He : 0 <= e < 2 ^ 64) by (unfold e; lia).
+  assert (HS : M * P - (Z.of_nat d * P + R) = e * P + (P - R)) by (unfold e; ring).
+  rewrite HS.
+  assert (HeP : 0 <= e * P) by (apply Z.mul_nonneg_nonneg; lia).
+  assert (HMP : P <= M * P) by (replace P with (1 * P) at 1 by ring; apply Z.mul_le_mono_nonneg_r; lia).
+  destruct (Z.ltb_spec (P - R) (2 ^ 64)) as [Hs|Hs].
+  2:{ destruct (Z.ltb_spec (e * P + (P - R)) (2 ^ 64)); [lia|reflexivity]. }
+  unfold sub_usize. rewrite (chk_usize_ok (M - 1)) by lia. cbn [bind]. fold e.
+  rewrite (chk_usize_ok e) by lia. cbn [bind].
+  assert (Hcur : omul (to_usize_z P) M = to_usize_z (M * P)).
+  { rewrite (to_usize_z_spec P) by lia. destruct (Z.ltb_spec P (2 ^ 64)); cbn [omul].
+    - f_equal. ring.
+    - symmetry. apply to_usize_big. lia. }
+  destruct (Z.ltb_spec 0 e) as [Hpos|Hzero].
+  - unfold add_term. rewrite (to_usize_z_spec P) by lia.
+    assert (HPe : P <= e * P) by (replace P with (1 * P) at 1 by ring; apply Z.mul_le_mono_nonneg_r; lia).
+    destruct (Z.ltb_spec P (2 ^ 64)) as [HP|HP]; cbn [omul].
+    + rewrite (Z.mul_comm P e). rewrite (to_usize_z_spec (e * P)) by lia.
+      destruct (Z.ltb_spec (e * P) (2 ^ 64)) as [HeP'|HeP'].
+      * rewrite (to_usize_z_spec (P - R + e * P)) by lia. rewrite (Z.add_comm (P - R) (e * P)).
+        destruct (Z.ltb_spec (e * P + (P - R)) (2 ^ 64)); [|reflexivity].
+        rewrite <- Hcur. rewrite (to_usize_z_spec P) by lia.
+        destruct (Z.ltb_spec P (2 ^ 64)); [reflexivity|lia].
+      * destruct (Z.ltb_spec (e * P + (P - R)) (2 ^ 64)); [lia|reflexivity].
+    + destruct (Z.ltb_spec (e * P + (P - R)) (2 ^ 64)); [lia|reflexivity].
+  - assert (e = 0) by lia. replace (e * P) with 0 by (subst e; lia). rewrite Z.add_0_l.
+    destruct (Z.ltb_spec (P - R) (2 ^ 64)); [|lia]. rewrite Hcur. reflexivity.
 Qed.
 
-Theorem cart_len_is_count s : cart_inv s ->
-  (forall v, s = Some v -> M ^ Z.of_nat (length v) < 2 ^ 64) ->
-  cart_len m s = Ok (Some (cart_count s)).
+Theorem cart_len_is_count s : Z.of_nat m < 2 ^ 64 -> cart_inv s ->
+  cart_len m s = Ok (to_usize_z (cart_count s)).
 Proof.
-  destruct s as [v|]; [|reflexivity]. intros Hv Hb. specialize (Hb v eq_refl).
-  cbn [cart_len cart_count]. rewrite cart_len_aux_ok by assumption. cbn [bind snd].
-  pose proof (dval_bounds v Hv). unfold add_usize. rewrite chk_usize_ok by lia. cbn [bind]. do 2 f_equal. lia.
+  intros HM. destruct s as [v|]; [|reflexivity]. intros Hv.
+  cbn [cart_len cart_count]. rewrite cart_len_aux_exact by assumption. cbn [omap bind].
+  pose proof (dval_bounds v Hv).
+  destruct (Z.ltb_spec (M ^ Z.of_nat (length v) - dval v) (2 ^ 64)); cbn [option_map snd];
+    [rewrite (to_usize_small (M ^ Z.of_nat (length v) - dval v)) by lia
+    |rewrite (to_usize_big (M ^ Z.of_nat (length v) - dval v)) by lia]; reflexivity.
 Qed.
 
-Theorem cart_len_counts_iteration s l : cart_inv s ->
-  (forall v, s = Some v -> M ^ Z.of_nat (length v) < 2 ^ 64) ->
-  yields (cart_step m) s l -> cart_len m s = Ok (Some (Z.of_nat (length l))).
+(* len = the number of elements iteration yields when that fits a machine word, and "infinite"
+   otherwise (known finding len-count-ge-2^64); never a panic *)
+Theorem cart_len_counts_iteration s l : Z.of_nat m < 2 ^ 64 -> cart_inv s ->
+  yields (cart_step m) s l -> cart_len m s = Ok (to_usize_z (Z.of_nat (length l))).
 Proof.
-  intros Hi Hb Hy. destruct (cart_count_is_length s Hi) as [l' [Hy' Hl]].
+  intros HM Hi Hy. destruct (cart_count_is_length s Hi) as [l' [Hy' Hl]].
   rewrite (yields_fun _ _ _ Hy _ Hy'), Hl. apply cart_len_is_count; assumption.
 Qed.
 
@@ -296,43 +326,75 @@ Qed.
 Lemma sub_count_none s : fst (sub_step s) = None -> sub_count s = 0.
 Proof. destruct s; cbn; [discriminate|reflexivity]. Qed.
 
-Lemma sub_len_aux_ok : forall v, (length v < 64)%nat ->
-  sub_len_aux v = Ok (2 ^ Z.of_nat (length v), 2 ^ Z.of_nat (length v) - 1 - dval 2 (bits v)).
+Lemma sub_len_aux_exact : forall v,
+  sub_len_aux v =
+  if 2 ^ Z.of_nat (length v) - dval 2 (bits v) <? 2 ^ 64
+  then Some (to_usize_z (2 ^ Z.of_nat (length v)), 2 ^ Z.of_nat (length v) - dval 2 (bits v))
+  else None.
 Proof.
-  induction v as [|b r IH]; intros Hb; [reflexivity|].
-  cbn [length] in Hb. cbn [sub_len_aux]. rewrite IH by lia. cbn [bind fst snd].
+  induction v as [|b r IH]; [reflexivity|].
   pose proof (dval_bounds 2 (bits r) (bits_valid r)) as Hd. rewrite bits_length in Hd.
   change (Z.of_nat 2) with 2 in *.
-  assert (Hp : 0 < 2 ^ Z.of_nat (length r) <= 2 ^ 62).
-  { split; [apply Z.pow_pos_nonneg; lia | apply Z.pow_le_mono_r; lia]. }
+  assert (Hp : 0 < 2 ^ Z.of_nat (length r)) by (apply Z.pow_pos_nonneg; lia).
   assert (Hs : 2 ^ Z.of_nat (length (b :: r)) = 2 * 2 ^ Z.of_nat (length r)).
   { cbn [length]. rewrite Nat2Z.inj_succ, Z.pow_succ_r by lia. reflexivity. }
-  unfold mul_usize, add_usize. rewrite chk_usize_ok by lia. cbn [bind].
-  rewrite chk_usize_ok by (destruct b; lia). cbn [bind]. rewrite Hs.
-  change (bits (b :: r)) with (nat_of_bool b :: bits r). cbn [dval]. rewrite bits_length. change (Z.of_nat 2) with 2.
-  do 2 f_equal; [lia|]. destruct b; cbn [nat_of_bool]; lia.
+  rewrite Hs. change (bits (b :: r)) with (nat_of_bool b :: bits r). cbn [dval]. rewrite bits_length.
+  change (Z.of_nat 2) with 2.
+  set (P := 2 ^ Z.of_nat (length r)) in *. set (R := dval 2 (bits r)) in *.
+  cbn [sub_len_aux]. rewrite IH. fold P R.
+  assert (Hcur : omul (to_usize_z P) 2 = to_usize_z (2 * P)).
+  { rewrite (to_usize_z_spec P) by lia. destruct (Z.ltb_spec P (2 ^ 64)); cbn [omul].
+    - f_equal. ring.
+    - symmetry. apply to_usize_big. lia. }
+  destruct (Z.ltb_spec (P - R) (2 ^ 64)) as [HS|HS].
+  2:{ destruct b; cbn [nat_of_bool].
+      - destruct (Z.ltb_spec (2 * P - (Z.of_nat 1 * P + R)) (2 ^ 64)); [lia|reflexivity].
+      - destruct (Z.ltb_spec (2 * P - (Z.of_nat 0 * P + R)) (2 ^ 64)); [lia|reflexivity]. }
+  destruct b; cbn [nat_of_bool].
+  - replace (2 * P - (Z.of_nat 1 * P + R)) with (P - R) by lia.
+    destruct (Z.ltb_spec (P - R) (2 ^ 64)); [|lia]. rewrite Hcur. reflexivity.
+  - replace (2 * P - (Z.of_nat 0 * P + R)) with (P - R + P) by lia.
+    unfold add_term. rewrite (to_usize_z_spec P) by lia.
+    destruct (Z.ltb_spec P (2 ^ 64)) as [HP|HP]; cbn [omul].
+    + rewrite Z.mul_1_r. rewrite (to_usize_z_spec P) by lia.
+      destruct (Z.ltb_spec P (2 ^ 64)); [|lia].
+      rewrite (to_usize_z_spec (P - R + P)) by lia.
+      destruct (Z.ltb_spec (P - R + P) (2 ^ 64)); [|reflexivity].
+      rewrite <- Hcur. rewrite (to_usize_z_spec P) by lia.
+      destruct (Z.ltb_spec P (2 ^ 64)); [reflexivity|lia].
+    + destruct (Z.ltb_spec (P - R + P) (2 ^ 64)); [lia|reflexivity].
 Qed.
 
+(* len = the number of elements iteration yields when that fits a machine word, "infinite"
+   otherwise (known finding len-count-ge-2^64); never a panic, for every state *)
 Theorem sub_len_counts_iteration s l :
-  (forall v, s = Some v -> (length v < 64)%nat) ->
-  yields sub_step s l -> sub_len s = Ok (Some (Z.of_nat (length l))).
+  yields sub_step s l -> sub_len s = Ok (to_usize_z (Z.of_nat (length l))).
 Proof.
-  intros Hb Hy. destruct (sub_count_is_length s) as [l' [Hy' Hl]].
+  intros Hy. destruct (sub_count_is_length s) as [l' [Hy' Hl]].
   rewrite (yields_fun _ _ _ Hy _ Hy'), Hl. clear Hy Hy' Hl l l'.
-  destruct s as [v|]; [|reflexivity]. specialize (Hb v eq_refl).
-  cbn [sub_len]. rewrite sub_len_aux_ok by assumption. cbn [bind snd].
+  destruct s as [v|]; [|reflexivity].
+  cbn [sub_len]. rewrite sub_len_aux_exact.
   pose proof (dval_bounds 2 (bits v) (bits_valid v)) as Hd. rewrite bits_length in Hd.
   change (Z.of_nat 2) with 2 in *.
-  assert (2 ^ Z.of_nat (length v) <= 2 ^ 63) by (apply Z.pow_le_mono_r; lia).
-  unfold add_usize. rewrite chk_usize_ok by lia. cbn [bind]. unfold sub_count, obits, option_map, cart_count.
-  rewrite bits_length. change (Z.of_nat 2) with 2. do 2 f_equal. lia.
+  unfold sub_count, obits, option_map, cart_count. rewrite bits_length. change (Z.of_nat 2) with 2.
+  destruct (Z.ltb_spec (2 ^ Z.of_nat (length v) - dval 2 (bits v)) (2 ^ 64)); cbn [option_map snd];
+    [rewrite (to_usize_small (2 ^ Z.of_nat (length v) - dval 2 (bits v))) by lia
+    |rewrite (to_usize_big (2 ^ Z.of_nat (length v) - dval 2 (bits v))) by lia]; reflexivity.
 Qed.
 
-(* known finding len-usize-overflow: with 64 flags the doubling overflows although the count
-   (2^64 - 1 after one element) would fit *)
-Theorem sub_len_overflow_refuted :
-  exists v, sub_inc (repeat false 64) = Some v /\ sub_count (Some v) = 2 ^ 64 - 1 /\ sub_len (Some v) = Panic.
-Proof. eexists. split; [vm_compute; reflexivity|]. split; vm_compute; reflexivity. Qed.
+(* known finding len-count-ge-2^64: 64 flags, 2^64 subsequences, len reports infinity; one
+   element later the count 2^64 - 1 fits and is reported exactly *)
+Theorem sub_len_huge_refuted :
+  (exists l, yields sub_step (sub_init 64) l /\ Z.of_nat (length l) = 2 ^ 64) /\
+  sub_len (sub_init 64) = Ok None /\
+  sub_len (snd (sub_step (sub_init 64))) = Ok (Some (2 ^ 64 - 1)).
+Proof.
+  split; [|split].
+  - destruct (sub_count_is_length (sub_init 64)) as [l [Hy Hl]]. exists l. split; [assumption|].
+    rewrite Hl. vm_compute. reflexivity.
+  - vm_compute. reflexivity.
+  - vm_compute. reflexivity.
+Qed.
 
 Theorem sub_enumerates n l : yields sub_step (sub_init n) l -> enumerates (is_mask n) (map bits l).
 Proof.
@@ -351,13 +413,16 @@ Proof.
   cbn [mask_select combine filter]. injection Hl as Hl. destruct b; cbn [fst map snd]; rewrite IH by assumption; reflexivity.
 Qed.
 
-(* known finding len-usize-overflow for cartesian powers: 2^64 tuples *)
-Theorem cart_len_overflow_refuted :
-  cart_inv 2 (cart_init 2 64) /\ cart_count 2 (cart_init 2 64) = 2 ^ 64 /\ cart_len 2 (cart_init 2 64) = Panic.
+(* known finding len-count-ge-2^64 for cartesian powers: 2^64 tuples, len reports infinity *)
+Theorem cart_len_huge_refuted :
+  (exists l, yields (cart_step 2) (cart_init 2 64) l /\ Z.of_nat (length l) = 2 ^ 64) /\
+  cart_len 2 (cart_init 2 64) = Ok None.
 Proof.
-  split; [|split].
-  - apply Forall_forall. intros d Hd. apply repeat_spec in Hd. subst. lia.
-  - vm_compute. reflexivity.
+  split.
+  - assert (Hi : cart_inv 2 (cart_init 2 64)).
+    { apply Forall_forall. intros d Hd. apply repeat_spec in Hd. subst. lia. }
+    destruct (cart_count_is_length 2 _ Hi) as [l [Hy Hl]]. exists l. split; [assumption|].
+    rewrite Hl. vm_compute. reflexivity.
   - vm_compute. reflexivity.
 Qed.
 
